@@ -3,39 +3,42 @@
    run (Gen/MaskProgC12.v): 40 listed functions, 15 of them the binary neighbourhood family / thin /
    skeletonize.  A function whose term the checker rejects breaks [listed_accepted] and with it these theorems. *)
 From Coq Require Import ZArith List Bool.
+Import ListNotations.
 From Centro Require Import Model.MaskFlow Spec.MaskCheck Proofs.MaskFlowSound Proofs.MaskCheckSound
   Proofs.MaskFlowDemo Gen.MaskProgC12.
 Open Scope Z_scope.
 
-(* the radius judgement is sound: whatever [rb] computes is a semantic dependence bound, for every admissible
-   interpretation of the library symbols, every mask and every program *)
-Theorem C12_rb_sound : forall (I : interp) (mask : px -> bool) (e : expr) (r : rad),
-  rb e = Some r -> dep I mask r e.
-Proof. exact rb_sound. Qed.
+(* the dependence judgement is sound: whatever [rbp] computes for a program (shared definitions + main term) is a
+   semantic dependence bound, for every admissible interpretation of the library symbols, every mask, every pair of
+   images agreeing on the mask *)
+Theorem C12_rb_sound : forall (I : interp) (mask : px -> bool) (a b : px -> V I), agree I mask a b ->
+  forall (defs : list expr) (main : expr) (r : rad), rbp [] defs main = Some r ->
+  forall p, near I r a b p -> evalp I mask [] defs main a p = evalp I mask [] defs main b p.
+Proof. exact (fun I mask a b Hab defs main r => rbp_sound I mask a b Hab defs main [] [] [] r (Inv_nil I mask a b)). Qed.
 Print Assumptions C12_rb_sound.
 
 (* accepted programs are non-interfering inside the mask *)
-Theorem C12_accepts_sound : forall e, accepts e = true ->
+Theorem C12_accepts_sound : forall P, accepts P = true ->
   forall (I : interp) (mask : px -> bool) (a b : px -> V I), (forall q, mask q = true -> a q = b q) ->
-  forall p, mask p = true -> eval I mask e a p = eval I mask e b p.
+  forall p, mask p = true -> run I mask P a p = run I mask P b p.
 Proof. exact accepts_sound. Qed.
 Print Assumptions C12_accepts_sound.
 
-(* programs whose last write is `result[~mask] = image[~mask]` return the input outside the mask *)
-Theorem C12_restores_outside_sound : forall e, restores_outside e = true ->
-  forall (I : interp) (mask : px -> bool) (img : px -> V I) p, mask p = false -> eval I mask e img p = img p.
+(* programs whose every path ends in `result[~mask] = image[~mask]` return the input outside the mask *)
+Theorem C12_restores_outside_sound : forall P, restores_outside P = true ->
+  forall (I : interp) (mask : px -> bool) (img : px -> V I) p, mask p = false -> run I mask P img p = img p.
 Proof. exact restores_outside_sound. Qed.
 Print Assumptions C12_restores_outside_sound.
 
 (* the masked convolution kernel (_filter.pyx masked_convolution, concrete loop semantics) reads no masked-out pixel *)
 Theorem C12_masked_conv_clean : forall k (I : interp) (mask : px -> bool) (a b : px -> V I),
   (forall q, mask q = true -> a q = b q) ->
-  forall p, eval I mask (MConv k Img MaskE) a p = eval I mask (MConv k Img MaskE) b p.
+  forall p, eval I mask [] (MConv k Img MaskE) a p = eval I mask [] (MConv k Img MaskE) b p.
 Proof. exact masked_conv_clean. Qed.
 Print Assumptions C12_masked_conv_clean.
 
-(* THE PROPERTY, for every function in the generated list (regional_maximum: structures of radius 1; openlines: three
-   angles written out — see TRUSTED in harness/props/c12.py) *)
+(* THE PROPERTY, for every function in the generated list (openlines: three angles written out — see TRUSTED in
+   harness/props/c12.py) *)
 Theorem C12_listed_noninterfering : Forall noninterfering listed_progs.
 Proof. exact (all_accepted_noninterfering listed_progs listed_accepted). Qed.
 Print Assumptions C12_listed_noninterfering.
@@ -44,11 +47,11 @@ Theorem C12_binary_family_restores_input_outside_mask : Forall restoring binary_
 Proof. exact (all_restoring binary_progs binary_restore). Qed.
 Print Assumptions C12_binary_family_restores_input_outside_mask.
 
-(* regional_maximum with a full (2r+1)x(2r+1) structure of ANY size r (sparse structures such as the 4-connected
-   cross are covered by the two-run oracle only) *)
-Theorem C12_regional_maximum_any_square_structure : forall r, noninterfering (prog_regional_maximum_at r).
-Proof. exact (fun r => accepts_sound (prog_regional_maximum_at r) (regional_maximum_at_ok r)). Qed.
-Print Assumptions C12_regional_maximum_any_square_structure.
+(* regional_maximum for EVERY structure: the term is stated over an abstract offset set s (interp.sset s is any
+   set: full squares of any size, the 4-connected cross where F10 lived, asymmetric structures) *)
+Theorem C12_regional_maximum_any_structure : forall s, noninterfering (prog_regional_maximum_struct s).
+Proof. exact (fun s => accepts_sound (prog_regional_maximum_struct s) (regional_maximum_struct_ok s)). Qed.
+Print Assumptions C12_regional_maximum_any_structure.
 
 (* the generated lists cover all 40 listed functions / all 15 binary ones *)
 Theorem C12_lists_complete : (length listed_progs, length binary_progs) = (40, 15)%nat.
